@@ -4,13 +4,28 @@ import json, os
 HERE = os.path.dirname(os.path.abspath(__file__)); VERIF = os.path.dirname(HERE)
 NOTE = ('trusted: clang++-14 front end + fixed IR pipeline, tools/ir2c.py (IR->C, must-fire), prelude headers, CBMC 6.11; GCC code generation and '
         'strict-aliasing UB not modelled; the set of instantiations (shapes, patterns, configurations) is enumerated, element values are universally quantified')
+ENABLED = ['C01', 'C07', 'C11', 'C13', 'C14', 'C15']
+DFCC = 'CBMC code contracts (goto-instrument --dfcc --enforce-contract) on clang-IR-extracted Fastor entry points'
 CHECKS = {
  'C01': dict(text='For every enumerated (M,K,N), element type (int32, float, double), API form (matmul on maps / owning tensors, lazy %, matrix-vector, vector-matrix), ISA, standard and block-size macro: the contract "every result element equals sum_k A(i,k)*B(k,j), nothing else written, no access outside the operands" is enforced on the translated real code (goto-instrument --dfcc) and discharged by CBMC in ATOMS mode: the kernel provably evaluates the Einstein polynomial with each product exactly once; exact for integer-valued data. The floating-point rounding bound of the property is NOT machine-checked.',
-             technique='CBMC code contracts (DFCC) on clang-IR-extracted Fastor entry points, provenance-concrete (ATOMS) evaluation', ref='5 (C01), 4'),
- 'C14': dict(text='For every enumerated instantiation (shape, axis permutation, element type, ISA, C++ standard) the contract "out(i[p[0]],..,i[p[k]]) == A(i[0],..,i[k]) for every multi-index, nothing else written, no access outside the operands" is enforced on the translated real code by goto-instrument --dfcc and discharged by CBMC for all element values (mode SYM).',
-             technique='CBMC code contracts (DFCC) on clang-IR-extracted Fastor entry points, symbolic data', ref='5 (C14), 2, 3'),
+             technique=DFCC + ', provenance-concrete (ATOMS) evaluation', ref='5 (C01), 4, 9'),
+ 'C07': dict(text='Memory-safety, frame, alignment and no-allocation obligations (pointer/bounds checks on exact-extent objects, assigns clause, alignment assertion on every over-aligned vector access, operator-new stub) for operations through TensorMap over a misaligned buffer flush against the end of its object, for runtime-checked indexing with symbolic out-of-range indices (normal exit implies index in range), and safety-only contracts for inverse/det/lu/qr/solve; for all element and index values. The same obligations are part of every unit of every other property.',
+             technique=DFCC + '; pointer/assigns/alignment obligations, symbolic indices', ref='5 (C07), 9'),
+ 'C11': dict(text='Exact clauses only: L unit lower triangular (zeros above the diagonal, ones on it, bit-exact), U upper triangular, returned permutation (vector and matrix form) is a bijection, frame; for all inputs, per (size, strategy, type, ISA), float arithmetic uninterpreted. The backward-error bound ||LU-PA|| and reconstruct() are NOT decided.',
+             technique=DFCC + ', uninterpreted float arithmetic (UF)', ref='5 (C11), 9'),
+ 'C13': dict(text='Exact clauses only: R upper triangular with exact zeros below the diagonal (MGS with/without pivoting), determinant<QR>(A) == product(diag(R)) bit for bit (2x2), pivot vector is a bijection, frame; for all inputs. Orthonormality of Q and ||QR-A|| are NOT decided.',
+             technique=DFCC + ', uninterpreted float arithmetic (UF)', ref='5 (C13), 9'),
+ 'C14': dict(text='For every enumerated instantiation (shape, axis permutation, element type incl. complex, ISA, C++ standard) the contract "out(i[p[0]],..,i[p[k]]) == A(i[0],..,i[k]) for every multi-index (conjugated for ctrans), permutation<> consistent between extents and elements, round trip is the identity, nothing else written, no access outside the operands" is enforced on the translated real code by goto-instrument --dfcc and discharged by CBMC for all element values.',
+             technique=DFCC + ', symbolic data (SYM) / uninterpreted float arithmetic for ctrans in sums', ref='5 (C14), 2, 3, 9'),
+ 'C15': dict(text='BOUNDED stand-in, not a proof: 3- and 4-operand einsum networks on int tensors whose elements are constructed single bits {0,1}; every result element equals the full Einstein sum in declared free-index order, for all 2^n assignments (SAT-exhaustive), index topologies and extents enumerated so that different pairings are cheapest. Lifting to all values is not machine-checked.',
+             technique='bounded check (value domain {0,1}, exhaustive by SAT) of the contract on clang-IR-extracted entry points; labelled bounded', ref='5 (C15), 4 (B01)', category='other'),
+ 'C06': dict(text='Lemma over the contracts of the other properties: the same functional contract is enforced on the code compiled under every configuration of a grid (6 ISAs x C++14/17 x IR pipelines -O0/-O1/-O2 x runtime checks x one tuning macro at a time) for a seeded sample of their cases, hence results agree across the grid (bit-identical for integer/boolean and SYM/UF float clauses). Acceptance (accepted in one configuration => accepted in all) is checked with clang++/g++ -fsyntax-only: a supporting static fact.',
+             technique=DFCC + ' re-enforced per build configuration; compiler acceptance matrix', ref='5 (C06), 9'),
 }
-NA = {}
+NA = {
+ 'C10': 'the claim is a residual bound ||AX-I|| <= c n eps cond(A): needs real division and norm inequalities over IEEE arithmetic; a single duplicated 32-bit multiplier already defeats every installed back end, the ring abstraction has no division, uninterpreted functions have no field axioms. Memory safety/frame of every inversion strategy is checked under C07, lazy inv == eager inverse under C09.',
+ 'C12': 'residual bound ||Ax-b|| <= c n eps cond(A) ||b||: same reason as C10; safety of solve is under C07, lazy/eager wiring under C09.',
+}
 def main():
     props = [json.loads(l)['id'] for l in open(os.path.join(VERIF, 'properties.jsonl'))]
     try:
@@ -19,19 +34,19 @@ def main():
         NA2 = {}
     checks = []
     for p in props:
-        if p in CHECKS:
+        if p in CHECKS and p in ENABLED:
             c = CHECKS[p]
             checks.append({
                 'property_id': p, 'quick_cmd': './check %s --tier quick' % p, 'thorough_cmd': './check %s --tier thorough' % p,
                 'evidence_file': 'evidence/%s.json' % p, 'replay_cmd_template': './check %s --replay {path}' % p, 'engine': 'vf',
-                'level_claimed': {'category': 'proof', 'text': c['text'], 'design_ref': 'DESIGN.md section ' + c['ref']},
+                'level_claimed': {'category': c.get('category', 'proof'), 'text': c['text'], 'design_ref': 'DESIGN.md section ' + c['ref']},
                 'level_note': c.get('note', NOTE), 'technique': c['technique']})
-    na = [{'property_id': p, 'reason': NA.get(p, 'check not built yet in this round (see DESIGN.md section 5 for the plan)')} for p in props if p not in CHECKS]
+    na = [{'property_id': p, 'reason': NA.get(p, 'check not built yet in this round (see DESIGN.md section 5 for the plan)')} for p in props if not (p in CHECKS and p in ENABLED)]
     m = {'version': 1,
          'setup_cmd': 'python3 tools/selftest.py',
          'hooks': {'guard': 'FASTOR_VERIF', 'enable': '-DFASTOR_VERIF=1 is passed on every unit compile; no source hook exists in /repo (nothing is guarded by it)',
                    'baseline_off_cmd': 'cmake --build /repo/_build -j16 && ctest --test-dir /repo/_build -j8 --timeout 900', 'source_commits': [], 'add_only': True},
-         'engines': [{'name': 'vf', 'path': 'tools/vf.py', 'serves_properties': sorted(CHECKS), 'kind_free_text': 'clang++-14 -> LLVM IR -> tools/ir2c.py -> C with spliced contract -> goto-cc -> goto-instrument --dfcc --enforce-contract -> cbmc; native replay with g++/clang++ ASan'}],
+         'engines': [{'name': 'vf', 'path': 'tools/vf.py', 'serves_properties': sorted(ENABLED), 'kind_free_text': 'clang++-14 -> LLVM IR -> tools/ir2c.py -> C with spliced contract -> goto-cc -> goto-instrument --dfcc --enforce-contract -> cbmc; native replay with g++/clang++ ASan'}],
          'checks': checks,
          'not_applicable': na,
          'notes': 'exit 0 = all obligations discharged (KNOWN-FINDING lines for listed findings); exit 1 = VIOLATION line(s); exit 2 = undecided (tool limit, never a violation). Known findings: known_findings.txt.'}
